@@ -215,6 +215,7 @@ def partition_call_rule(chk, rid, drv):
 # repository is imported or executed; of the standard library only `re` (on pattern literals extracted from the source) and `numbers.Number` are consulted. A construct the
 # machine does not model raises CannotEval => the rule is inconclusive, never a verdict. A renamed local / attribute / parameter, an extracted helper, a guard clause, a merged
 # or split loop, a named constant are all invisible to a rule stated this way: only the values that reach the observed calls / fields count.
+import builtins as _builtins
 import collections as _collections
 import numbers as _numbers
 import re as _re_mod
@@ -375,6 +376,16 @@ def _unknown(*vals):
             if x is not None:
                 return x
     return None
+
+
+def _catches(handler, raised):
+    """does `except <handler>` catch an exception of class <raised> (both given by name)? The catch-alls and the class itself do; between two classes of Python's own
+    hierarchy the language decides (`except RuntimeError` catches NotImplementedError, `except LookupError` a KeyError). Classes of the analysed package are matched by name only."""
+    h, r = handler.split(".")[-1], raised.split(".")[-1]
+    if h in ("BaseException", "Exception") or h == r:
+        return True
+    hc, rc = getattr(_builtins, h, None), getattr(_builtins, r, None)
+    return isinstance(hc, type) and isinstance(rc, type) and issubclass(hc, BaseException) and issubclass(rc, hc)
 
 
 class _Machine:
@@ -1006,7 +1017,7 @@ class _Machine:
                 except _Rse as r:
                     for h in s.handlers:
                         names = [dotted(t) or "" for t in (h.type.elts if isinstance(h.type, ast.Tuple) else [h.type])] if h.type is not None else ["BaseException"]
-                        if any(n_.split(".")[-1] in ("BaseException", "Exception", r.name().split(".")[-1]) for n_ in names):
+                        if any(_catches(n_, r.name()) for n_ in names):
                             if h.name:
                                 env[h.name] = r.value
                             self.block(h.body, env)
@@ -1888,8 +1899,7 @@ class _ScheduleRun:
         self.scheduler = None
         self.runner = None
         self.runner_completed = runner_completed
-        self.task = _Obj("task", clients=3, name="t", schedule=None, operation=_Obj("operation", type="search", name="search"), ramp_up_time_period=ramp_up,
-                         **{f: fields.get(f) for f, _, _ in _MIX_FIELDS})
+        self.task = _task_as_loaded(drv.repo, clients=3, schedule=None, ramp_up_time_period=ramp_up, **{f: fields.get(f) for f, _, _ in _MIX_FIELDS})
         self.allocation = self._allocation(drv, m)
 
         def psource_call(attr, args, kwargs):
@@ -2018,6 +2028,11 @@ def loop_control_flow_rule(chk, rid, drv):
            or f"stored as self.{ri.attr_of('control')}")
 
 
+# faults a parameter source / scheduler can raise in the middle of a task: Python's RuntimeError family (also what a generator-backed source that leaks a StopIteration turns
+# into, PEP 479), data errors of the track (KeyError / ValueError / IndexError / TypeError), I/O and the package's own error class
+_FAULTS = ("RuntimeError", "NotImplementedError", "RecursionError", "KeyError", "IndexError", "ValueError", "TypeError", "OSError", "exceptions.RallyError")
+
+
 def generator_rule(chk, rid, drv):
     """The schedule generator ScheduleHandle.__call__ decided on VALUES. The handle is the object a walk of schedule_for returns (so every attribute role - progress control,
     scheduler, runner, parameter source - is known by the identity of what schedule_for stored there, not by an attribute name); its progress control is replaced by a recording
@@ -2037,10 +2052,24 @@ def generator_rule(chk, rid, drv):
         raise AnchorMissing("the attribute of ScheduleHandle that holds the loop control schedule_for constructs")
     K, CUT = 3, 3
 
-    def walk(infinite):
+    def walk(infinite, fault=None):
+        """fault = (site, exception class, n): the n-th params() call of the parameter source (site 'params') resp. the n-th next() of the scheduler (site 'scheduler')
+        raises that exception inside the analysed code"""
         r = _ScheduleRun(drv, {"warmup_iterations": 3, "iterations": 7})
         ev_ = []
-        state = {"next": 0}
+        state = {"next": 0, "params": 0, "scheduler": 0, "fired": False}
+
+        def maybe_fail(site):
+            state[site] += 1
+            if fault is not None and fault[0] == site and state[site] == fault[2]:
+                state["fired"] = True
+                ev_.append(("fault", site, fault[1]))
+                raise _Rse(_Opaque(fault[1]))
+
+        def params_call(attr, args, kwargs):
+            if attr == "params":
+                maybe_fail("params")
+            return _Opaque(f"params.{attr}()")
 
         def pc_load(attr):
             if attr == "infinite":
@@ -2060,6 +2089,8 @@ def generator_rule(chk, rid, drv):
             return _MISSING
 
         def sched_call(attr, args, kwargs):
+            if attr == "next":
+                maybe_fail("scheduler")
             ev_.append(("scheduler." + attr,) + tuple(args))
             return _Sym("scheduler." + attr, *args)
 
@@ -2073,6 +2104,7 @@ def generator_rule(chk, rid, drv):
         h.fields[pc_attr] = _Obj("progress control", on_load=pc_load, on_call=pc_call)
         if sched_attr is not None:
             h.fields[sched_attr].on_call = sched_call
+        r.params.on_call = params_call
         r.machine.on_yield = on_yield
         ended = "end"
         try:
@@ -2081,6 +2113,8 @@ def generator_rule(chk, rid, drv):
             ended = "cut"
         except _Rse as x:
             ended = f"raises {x.name()}"
+        if fault is not None:
+            return r, ev_, ended, state["fired"]
         return r, ev_, ended
 
     nest = [_Sym("scheduler.next", 0)]
@@ -2090,7 +2124,7 @@ def generator_rule(chk, rid, drv):
     def fmt(ev_):
         out = []
         for e in ev_:
-            out.append("yield" if e[0] == "yield" else f"completed?@{e[1]}" if e[0] == "completed" else "next()" if e[0] == "next" else f"{e[0]}(..)")
+            out.append("yield" if e[0] == "yield" else f"completed?@{e[1]}" if e[0] == "completed" else "next()" if e[0] == "next" else f"<{e[1]} raises {e[2]}>" if e[0] == "fault" else f"{e[0]}(..)")
         return " ".join(out)
 
     results = {}
@@ -2151,6 +2185,40 @@ def generator_rule(chk, rid, drv):
         else:
             tup_ok = tup_ok and all(y[1][3] is r.handle.fields.get(runner_attr) for y in ys)
             chk.ob(rid, f"{name}: yielded tuple (scheduled, sample type, progress, runner, params)", tup_ok, site, f"first yield: {ys[0][1]!r}")
+    # What ends a schedule: the loop control (above) or the parameter source saying it is exhausted - the ONE documented signal is StopIteration out of params(). Anything
+    # else that params() or the scheduler's next() raises is a fault of the task: if the generator took it for the end of the schedule the client would stop after k < W + I
+    # requests (or long before the time period has elapsed), never reach progress 1 / leave warm-up, and the task would count as finished. Decided on the walk: the second
+    # params() call (resp. the second scheduler next()) raises inside the analysed code; where the try sits, which helper makes the call and how the handler is spelled
+    # (tuple of classes, a base class, a catch-all, a helper that converts the fault into StopIteration) is all the same.
+    for name in ("finite", "infinite"):
+        if name not in results:
+            continue
+        inf = name == "infinite"
+        try:
+            _, ev_, ended, fired = walk(inf, ("params", "StopIteration", 2))
+            n_y = sum(1 for e in ev_ if e[0] == "yield")
+            if not fired:
+                chk.unknown(rid, f"{name}: the walk of the generator does not call params() of the partitioned parameter source twice: where the requests' parameters come from "
+                                 f"is not located (generator {ended}; events: {fmt(ev_[:16])})", gen)
+                continue
+            chk.ob(rid, f"{name}: the parameter source's end (StopIteration out of params()) ends the schedule after the requests yielded so far", ended == "end" and n_y == 1, gen,
+                   f"params() raises StopIteration for the second request: {n_y} request(s) yielded, generator {'ends' if ended == 'end' else 'keeps yielding' if ended == 'cut' else ended}; events: {fmt(ev_[:16])}")
+            sites = [("params", "params() of the parameter source")] + ([("scheduler", "next() of the scheduler")] if sched_attr is not None else [])
+            for site, what in sites:
+                seen, bad = [], []
+                for exc in _FAULTS:
+                    _, ev_, ended, fired = walk(inf, (site, exc, 2))
+                    if not fired:
+                        raise CannotEval(f"the second call of {what} is not reached by the walk (generator {ended})")
+                    seen.append(f"{exc}: {ended}")
+                    if not ended.startswith("raises "):
+                        n_y = sum(1 for e in ev_ if e[0] == "yield")
+                        bad.append(f"{exc} raised for the second request: the generator {'ends as if the schedule were complete' if ended == 'end' else 'swallows it and keeps yielding'} "
+                                   f"({n_y} request(s) yielded" + (f", the control completes after {K}" if not inf else "") + f"; events: {fmt(ev_[:16])})")
+                chk.ob(rid, f"{name}: a fault raised by {what} (anything but the source's StopIteration) leaves the generator as an error, it does not end the schedule", not bad, gen,
+                       "; ".join(bad or seen))
+        except CannotEval as e:
+            chk.unknown(rid, f"the schedule generator is not evaluable with a {name} progress control and a failing parameter source / scheduler: {e}", gen)
     if firsts:
         chk.ob(rid, "first scheduled time derives from 0", len(firsts) == 2 and all(f_ == nest[0] for _, f_, _ in firsts), firsts[0][2], "; ".join(f"{n_}: {f_!r}" for n_, f_, _ in firsts))
 
@@ -2414,24 +2482,34 @@ def ramp_up_formula_rule(chk, rid, drv):
            f"ramp-up 8 s, client 5 of 8 (client 1 of 3 of its task): wait {got[0]!r} s (expected 5); without ramp-up: {got[1]!r} (expected 0)")
 
 
+def _task_as_loaded(repo, **given):
+    """a task as the loader hands it to the driver: the fields track.Task's OWN constructor stores for Task(name, operation, **given) (its __init__ is walked by the local
+    machine, so every attribute a task carries is there with its default - a reader of ANY of them gets a value, not `unknown`); the result is a plain object of those
+    fields (methods / properties of track.Task are not part of it: whoever reads one of them gets an unknown value). Without a walkable constructor: the documented fields."""
+    op = _Obj("operation", type="search", name="search")
+    try:
+        trk = repo.module("esrally/track/track.py")
+        o = _Machine(trk).instantiate(_Cls(trk.cls("Task")), [], dict(given, name="t", operation=op))
+        if all(k in o.fields for k in given):
+            return _Obj("task", **o.fields)
+    except (AnchorMissing, CannotEval, _Rse):
+        pass
+    fields = dict({f: None for f, _, _ in _MIX_FIELDS}, ramp_up_time_period=None, clients=1, schedule=None, name="t", operation=op, completes_parent=False, any_completes_parent=False)
+    fields.update(given)
+    return _Obj("task", **fields)
+
+
 def loop_control_choice_rule(chk, rid, drv):
     """requires_time_period_schedule(task, runner, params) as a decision table over VALUES: the function (and whatever helper it calls) is walked for the 64 combinations of
     {warm-up period, period, warm-up iterations, iterations} given / None, runner.completed given (False: a runner that knows about completion and is not done) / None,
-    params.infinite True / False, positional arguments in the order schedule_for passes them; the result is compared with the documented precedence."""
+    params.infinite True / False, positional arguments in the order schedule_for passes them; the result is compared with the documented precedence. The task is one as the
+    loader constructs it (all attributes of track.Task present, everything that is not given at its default); a ramp-up period - which the loader accepts only together with
+    a warm-up time period - is given (8 s) and not given in the rows with a warm-up period and must not change the choice: only the four fields of the property decide."""
     rq = drv.func("requires_time_period_schedule")
     n_rows = 0
     for vals in itertools.product([False, True], repeat=6):
         env = dict(zip(["wt", "t", "wi", "i", "rc", "inf"], vals))
-        task = _Obj("task", warmup_time_period=30 if env["wt"] else None, time_period=120 if env["t"] else None, warmup_iterations=3 if env["wi"] else None, iterations=7 if env["i"] else None, name="t")
-        m = _Machine(drv)
-        try:
-            got = m.truth(m.call(_Fn(rq), [task, _Obj("runner", completed=False if env["rc"] else None), _Obj("params", infinite=env["inf"])], {}))
-        except _Rse as x:
-            chk.ob(rid, f"row {env}", False, rq, f"no decision: raises {x.name()}")
-            continue
-        except CannotEval as e:
-            chk.unknown(rid, f"requires_time_period_schedule is not evaluable on a task / runner / parameter source given by its fields ({', '.join(k for k, v in env.items() if v) or 'nothing set'}): {e}", rq)
-            return
+        label = ", ".join(k for k, v in env.items() if v) or "nothing set"
         if env["wt"] or env["t"]:
             want = True
         elif env["wi"] or env["i"]:
@@ -2440,12 +2518,31 @@ def loop_control_choice_rule(chk, rid, drv):
             want = True
         else:
             want = not env["inf"]
+        agree = True
+        for ramp in ((None, 8) if env["wt"] else (None,)):
+            task = _task_as_loaded(chk.repo, warmup_time_period=30 if env["wt"] else None, time_period=120 if env["t"] else None, warmup_iterations=3 if env["wi"] else None,
+                                   iterations=7 if env["i"] else None, ramp_up_time_period=ramp)
+            m = _Machine(drv)
+            try:
+                got = m.truth(m.call(_Fn(rq), [task, _Obj("runner", completed=False if env["rc"] else None), _Obj("params", infinite=env["inf"])], {}))
+            except _Rse as x:
+                chk.ob(rid, f"row {env}", False, rq, f"no decision: raises {x.name()}")
+                agree = None
+                break
+            except CannotEval as e:
+                chk.unknown(rid, f"requires_time_period_schedule is not evaluable on a task / runner / parameter source given by its fields ({label}): {e}", rq)
+                return
+            if got != want:
+                agree = False
+                chk.ob(rid, f"choice for {label}" + (" with a ramp-up period" if ramp else ""), False, rq,
+                       f"chooses {'time-based' if got else 'iteration-based'}, documented: {'time-based' if want else 'iteration-based'}"
+                       + (" (only `time-period` given: with a parameter source that never ends every client issues `iterations` (default 1) requests instead of issuing requests until the period has elapsed)"
+                          if env["t"] and not env["wt"] and not got else ""),
+                       key=f"{_D}:requires_time_period_schedule:{sorted(k for k, v in env.items() if v)}" + (":ramp-up" if ramp else ""))
+        if agree is None:
+            continue
         n_rows += 1
-        if got != want:
-            chk.ob(rid, f"choice for {', '.join(k for k, v in env.items() if v) or 'nothing set'}", False, rq,
-                   f"chooses {'time-based' if got else 'iteration-based'}, documented: {'time-based' if want else 'iteration-based'}",
-                   key=f"{_D}:requires_time_period_schedule:{sorted(k for k, v in env.items() if v)}")
-    chk.ob(rid, "decision table rows evaluated", n_rows == 64, rq, f"{n_rows} of 64 cases agree with the documented precedence")
+    chk.ob(rid, "decision table rows evaluated", n_rows == 64, rq, f"{n_rows} of 64 cases evaluated against the documented precedence")
 
 
 _RUNTIME_ERRORS = ("AttributeError", "TypeError", "KeyError", "IndexError", "ZeroDivisionError", "ValueError", "NameError", "AssertionError", "re-raise")
@@ -2982,4 +3079,32 @@ VARIANTS = [
     [V("F47 repaired by a per-step high-water mark kept in the extracted helper", "keep", _D, _UPM_OLD,
        _UPM_MEAN_HELPER.replace("        return sum(progress_per_client) / num_clients\n", "        self.shown_progress = max(self.shown_progress, sum(progress_per_client) / num_clients)\n        return self.shown_progress\n")),
      V("", "keep", _D, "            self.most_recent_sample_per_client = {}\n", "            self.most_recent_sample_per_client = {}\n            self.shown_progress = 0.0\n")],
+    # ---- strengthening round 5 ------------------------------------------------------------------------------------------------------------------------------
+    # O5.3 (seed m13): only the parameter source's StopIteration ends a schedule; a fault of the source / the scheduler leaves the generator as an error
+    V("seed m13: the generator takes a RuntimeError for the end of the parameter source (both loops)", "break", _D, _GEN_OLD, _GEN_OLD.replace("except StopIteration:", "except (StopIteration, RuntimeError):"), "O5.3"),
+    V("finite loop ends the schedule on any exception", "break", _D, "                    self.task_progress_control.next()\n                except StopIteration:\n                    return\n\n\nclass TimePeriodBased",
+      "                    self.task_progress_control.next()\n                except Exception:\n                    return\n\n\nclass TimePeriodBased", "O5.3"),
+    V("the helper that fetches the parameters converts lookup errors into the end-of-source signal", "break", _D, "        p = self.params.params()\n",
+      "        try:\n            p = self.params.params()\n        except LookupError:\n            raise StopIteration()\n", "O5.3"),
+    V("merged single-loop generator leaves the loop on a bare except", "break", _D, _GEN_OLD, _GEN_MERGED.replace("        except StopIteration:\n            return\n", "        except:  # noqa: E722\n            return\n"), "O5.3"),
+    V("infinite loop skips a request whose parameters cannot be produced", "break", _D, "                    self.task_progress_control.next()\n                except StopIteration:\n                    return\n        else:",
+      "                    self.task_progress_control.next()\n                except StopIteration:\n                    return\n                except ValueError:\n                    continue\n        else:", "O5.3"),
+    V("generator: handler spelled as a tuple with a bound name, parameters fetched into a local before the yield", "keep", _D, _GEN_OLD,
+      _GEN_OLD.replace("except StopIteration:", "except (StopIteration,) as _exhausted:").replace("                    yield (\n", "                    current_params = self.params_with_operation_type()\n                    yield (\n")
+      .replace("                        self.params_with_operation_type(),\n", "                        current_params,\n")),
+    V("generator: faults of the parameter source are re-raised as they are by an explicit handler", "keep", _D, "        p = self.params.params()\n",
+      "        try:\n            p = self.params.params()\n        except RuntimeError:\n            raise\n"),
+    # O5.5 (seed m15): the choice depends on the four fields of the property only, evaluated on a task as the loader constructs it (all attributes of track.Task present)
+    V("seed m15: the first check reads the ramp-up period instead of the time period", "break", _D, "    if task.warmup_time_period is not None or task.time_period is not None:\n        return True",
+      "    if task.warmup_time_period is not None or task.ramp_up_time_period is not None:\n        return True", "O5.5"),
+    V("the first check reads the ramp-up period instead of the warm-up period", "break", _D, "    if task.warmup_time_period is not None or task.time_period is not None:\n        return True",
+      "    if task.ramp_up_time_period is not None or task.time_period is not None:\n        return True", "O5.5"),
+    V("time-based only when BOTH periods are given", "break", _D, "    if task.warmup_time_period is not None or task.time_period is not None:\n        return True",
+      "    if task.warmup_time_period is not None and task.time_period is not None:\n        return True", "O5.5"),
+    V("a ramp-up period makes a task with explicit iterations time-based... never: the check is guarded by the warm-up period (redundant operand)", "keep", _D,
+      "    if task.warmup_time_period is not None or task.time_period is not None:\n        return True",
+      "    if task.warmup_time_period is not None or task.time_period is not None or (task.ramp_up_time_period is not None and task.warmup_time_period is not None):\n        return True"),
+    V("the choice reads other attributes of the task for a log line", "keep", _D, "    if task.warmup_time_period is not None or task.time_period is not None:\n        return True",
+      "    periods = (task.warmup_time_period, task.time_period)\n    if task.clients > 1 and not task.completes_parent:\n        logging.getLogger(__name__).debug(\"choosing the loop control of [%s]\", task.name)\n"
+      "    if any(p is not None for p in periods):\n        return True"),
 ]
